@@ -1895,6 +1895,13 @@ class PathExec(object):
                                 new.append(s2)
                     sts = new
                     continue
+                if src.startswith('assert '):
+                    # intermediate fact: proved where it stands (own obligation), then assumed
+                    node = ast.parse(src[7:].strip(), mode='eval').body
+                    for st in sts:
+                        p = Pure(self.eng, st, st.env, ct_globals(ct), True, TRUE, lineno)
+                        self.eng.oblig(st, 'ghost', 'assert:%s' % src[7:].strip()[:48], p.truthy(p.ev(node)), lineno)
+                    continue
                 if src.startswith('cut '):
                     # assert / havoc / assume: every incoming path proves the cut formula;
                     # execution continues once, from the most general state satisfying it.
